@@ -64,8 +64,25 @@ template struct RobFlag<decltype(&StorageReflectSession::_indexingPresent), &Sto
 }
 
 // ---- the server-side session: StorageReflectSession plus four commands that call its protected subtree API --------------------
+// Refusals.  A server configured with PR_NAME_MAX_CHILDREN_PER_NODE / PR_NAME_MAX_NODES_PER_SESSION (central state, read by a session
+// when it attaches) refuses to create a node beyond the limit, and no node may be deeper than MUSCLE_MAX_NODE_DEPTH.  A refused
+// ORDERED insert must leave no trace in the index.  IdxSession knows the limits it attached under (the harness set them) and counts
+// the refused add-to-index calls that pass through the virtual SetDataNode(); refused INSERTORDEREDDATA is counted by the checked inserts.
+static const char * RefusalKind(bool nodeLimitHit, uint32 parentDepth) { return nodeLimitHit ? "by_node_limit" : parentDepth >= MUSCLE_MAX_NODE_DEPTH ? "by_depth_limit" : "by_child_limit"; }
 class IdxSession : public StorageReflectSession {
 public:
+   uint32 childLimit, nodeLimit;   // MUSCLE_NO_LIMIT = none
+   IdxSession() : childLimit(MUSCLE_NO_LIMIT), nodeLimit(MUSCLE_NO_LIMIT) {}
+   virtual status_t SetDataNode(const String & nodePath, const ConstMessageRef & dataMsgRef, SetDataNodeFlags flags = SetDataNodeFlags(), const String & optInsertBefore = GetEmptyString())
+   {
+      const bool nodeLimitHit = rbpriv::SessionNodeCount(rbpriv::NodeCountTag(), *this) >= nodeLimit;
+      const status_t r = StorageReflectSession::SetDataNode(nodePath, dataMsgRef, flags, optInsertBefore);
+      if (r == B_RESOURCE_LIMIT && flags.IsBitSet(SETDATANODE_FLAG_ADDTOINDEX) && nodePath.HasChars() && nodePath[0] != '/') {
+         const int32 slash = nodePath.LastIndexOf('/'); const DataNode * parent = (slash < 0) ? GetSessionNode()() : GetDataNode(nodePath.Substring(0, slash));
+         if (parent && GetDataNode(nodePath) == NULL) vh::stat(std::string("ordered_inserts_refused_") + RefusalKind(nodeLimitHit, parent->GetDepth()));   // it was the ordered child itself that was refused
+      }
+      return r;
+   }
    virtual void MessageReceivedFromGateway(const MessageRef & msgRef, void * ud)
    {
       const Message & m = *msgRef();
@@ -151,17 +168,31 @@ struct Actor {
 struct Hist {
    Bench * b; Client * obs; std::vector<Actor *> actors; std::vector<std::string> log; Names seen; std::vector<MessageRef> vault;
    std::set<std::string> tainted;   // nodes whose index holds duplicates because of the clone-onto-indexed-destination defect (reported under its own key): structure not judged there
-   bool bad, selfTest, reportedCloneDup, reportedCloneFlag, styles; int32 tag; long cmpNonEmpty, idxOps, checks; int nextId;
-   Hist() : b(NULL), obs(NULL), bad(false), selfTest(false), reportedCloneDup(false), reportedCloneFlag(false), styles(false), tag(0), cmpNonEmpty(0), idxOps(0), checks(0), nextId(0) {}
+   bool bad, selfTest, reportedCloneDup, reportedCloneFlag, styles; int32 tag;
+   uint32 childLimit, nodeLimit;   // what the next joining session will attach under (MUSCLE_NO_LIMIT = none)
+   long cmpNonEmpty, idxOps, checks; int nextId;
+   Hist() : b(NULL), obs(NULL), bad(false), selfTest(false), reportedCloneDup(false), reportedCloneFlag(false), styles(false), tag(0), childLimit(MUSCLE_NO_LIMIT), nodeLimit(MUSCLE_NO_LIMIT), cmpNonEmpty(0), idxOps(0), checks(0), nextId(0) {}
    ~Hist() { for (size_t i = 0; i < actors.size(); i++) delete actors[i]; }
 };
+// index nodes at the depth limit: a chain d/d/.../d below the session node; g_deep[0] ends at depth MUSCLE_MAX_NODE_DEPTH-1 (its ordered
+// children are the deepest nodes there can be), g_deep[1] at MUSCLE_MAX_NODE_DEPTH (every insert under it is refused).  Empty = not a deep history.
+static Names g_deep;
+static std::string Chain(uint32 n) { std::string p; for (uint32 i = 0; i < n; i++) { if (i) p += "/"; p += "d"; } return p; }
+static std::string Shorten(std::string s) { if (g_deep.empty()) return s; for (int i = 1; i >= 0; i--) { size_t k; while ((k = s.find(g_deep[i])) != std::string::npos) s.replace(k, g_deep[i].size(), i ? "<d*98>" : "<d*97>"); } return s; }
+static void SetLimits(Hist & h, uint32 childLimit, uint32 nodeLimit)
+{
+   Message & cs = h.b->server.GetCentralState(); h.childLimit = childLimit; h.nodeLimit = nodeLimit;
+   (void)cs.RemoveName(PR_NAME_MAX_CHILDREN_PER_NODE); (void)cs.RemoveName(PR_NAME_MAX_NODES_PER_SESSION);
+   if (childLimit != MUSCLE_NO_LIMIT && cs.AddInt32(PR_NAME_MAX_CHILDREN_PER_NODE, (int32)childLimit).IsError()) Abort("cannot set the child limit");
+   if (nodeLimit != MUSCLE_NO_LIMIT && cs.AddInt32(PR_NAME_MAX_NODES_PER_SESSION, (int32)nodeLimit).IsError()) Abort("cannot set the node limit");
+}
 static void Fail(Hist & h, const std::string & key, const std::string & detail)
 {
    if (h.bad) return;
    h.bad = true; if (h.selfTest) return;   // the oracle self-test only wants to know that it fired
    std::string d = detail + " | history (" + vh::fmt("%zu", h.log.size()) + " steps, last 70): ";
    for (size_t i = (h.log.size() > 70 ? h.log.size() - 70 : 0); i < h.log.size(); i++) { d += h.log[i]; d += " ; "; }
-   vh::viol(key, d);
+   vh::viol(key, Shorten(d));
 }
 static void FailNL(Hist & h, const std::string & keyNlDetail) { size_t k = keyNlDetail.find('\n'); Fail(h, keyNlDetail.substr(0, k), k == std::string::npos ? "" : keyNlDetail.substr(k + 1)); }
 
@@ -251,7 +282,7 @@ static Actor * AddActor(Hist & h, bool reflect)
    Bench & b = *h.b; ConstSocketRef x, y;
    if (CreateConnectedSocketPair(x, y, false).IsError()) Abort("CreateConnectedSocketPair failed");
    Client * c = new Client; c->sock = x; c->io = new BudgetDataIO(x); c->ioRef.SetRef(c->io); c->gw.SetDataIO(c->ioRef);
-   c->session.SetRef(new IdxSession);
+   { IdxSession * is = new IdxSession; is->childLimit = h.childLimit; is->nodeLimit = h.nodeLimit; c->session.SetRef(is); }
    if (b.server.AddNewSession(c->session, y).IsError()) Abort("AddNewSession failed");
    const StorageReflectSession & s = *c->session();
    c->root = s.GetSessionRootPath()(); c->sid = s.GetSessionIDString()(); c->host = s.GetHostName()(); c->id = s.GetSessionID();
@@ -261,6 +292,8 @@ static Actor * AddActor(Hist & h, bool reflect)
    c->Send(GetMessageFromPool(PR_COMMAND_GETPARAMETERS)); b.Settle();
    if (c->params() == NULL || c->root != c->params()->GetString(PR_NAME_SESSION_ROOT)()) Abort("handshake of a new session failed");
    Actor * a = new Actor; a->c = c; a->id = h.nextId++; a->reflect = reflect; h.actors.push_back(a);
+   if (h.childLimit != MUSCLE_NO_LIMIT) vh::stat("sessions_with_child_limit"); if (h.nodeLimit != MUSCLE_NO_LIMIT) vh::stat("sessions_with_node_limit");
+   if (c->params()->GetInt32(PR_NAME_MAX_CHILDREN_PER_NODE) != (int32)h.childLimit || c->params()->GetInt32(PR_NAME_MAX_NODES_PER_SESSION) != (int32)h.nodeLimit) Abort("the session did not attach under the limits the harness set");
    if (h.styles && R(3) == 0) { a->style = 1 + (int)R(6); vh::stat(std::string("sessions_with_only_") + OPNAME_OF_STYLE[a->style]); }
    return a;
 }
@@ -354,10 +387,11 @@ static bool Check(Hist & h, Truth * optOut = NULL, bool light = false)
 
 // ---- command builders ----------------------------------------------------------------------------------------------------------
 static const char * EXPL[] = {"k1", "k2", "k3", "zz"};
-static std::string PickIdx(bool allowQ = true) { const uint32 r = R(allowQ ? 12 : 10); return r < 5 ? "L" : r < 8 ? "M" : r < 10 ? "C" : "Q"; }
+static std::string PickIdx(bool allowQ = true) { if (!g_deep.empty() && R(10) < 4) return g_deep[R(3) == 0]; const uint32 r = R(allowQ ? 12 : 10); return r < 5 ? "L" : r < 8 ? "M" : r < 10 ? "C" : "Q"; }
 static std::string PickName(Hist & h) { if (h.seen.empty() || R(2) == 0) return EXPL[R(4)]; return h.seen[R((uint32)h.seen.size())]; }
 static const char * SUBPOOL[] = {"*", "L", "M", "C", "(L|M)", "L/*", "*/*", "/*/*", "Q", "C/*"};
 static const uint32 NSUBPOOL = sizeof(SUBPOOL) / sizeof(SUBPOOL[0]);
+static std::string PickSub() { if (!g_deep.empty() && R(10) < 4) { const uint32 r = R(4); return r == 0 ? g_deep[1] : r == 1 ? g_deep[0] + "/*" : g_deep[0]; } return SUBPOOL[R(NSUBPOOL)]; }
 
 static MessageRef CmdSet(const std::string & path, bool addToIndex, bool quiet, int32 v)
 {
@@ -500,10 +534,14 @@ static MessageRef DataCommand(Hist & h, OpKind k, std::string & what)
 static void RunHistory(long k, uint64_t seed, long nOps)
 {
    g = vh::Rng(seed);
-   Bench bench; Hist h; h.b = &bench; h.styles = true;
+   Bench bench; Hist h; h.b = &bench; h.styles = true; g_deep.clear();
    { Options o; o.reflectToSelf = true; h.obs = bench.AddClient(o); }
+   // a quarter of the histories run on a server with small limits (they may change between joins), a few have index nodes at the depth limit
+   const uint32 flavour = R(100); const bool limited = flavour < 25, deep = flavour >= 25 && flavour < 29;
+   if (limited) { const uint32 m = R(10); SetLimits(h, m < 8 ? 3 + R(4) : MUSCLE_NO_LIMIT, (m >= 6) ? 6 + R(25) : MUSCLE_NO_LIMIT); vh::stat("histories_with_limits"); }
+   if (deep) { g_deep.push_back(Chain(MUSCLE_MAX_NODE_DEPTH - 3)); g_deep.push_back(Chain(MUSCLE_MAX_NODE_DEPTH - 2)); vh::stat("histories_with_deep_index_nodes"); }
    const uint32 nInit = 1 + R(3);
-   for (uint32 i = 0; i < nInit; i++) { Actor * a = AddActor(h, R(4) == 0); h.log.push_back(vh::fmt("a%d joins%s%s%s", a->id, a->reflect ? " (reflect-to-self)" : "", a->style ? " only-" : "", OPNAME_OF_STYLE[a->style])); if (R(4) != 0) { a->c->Send(CmdSet("L", false, false, 1)); h.log.push_back(vh::fmt("a%d SETDATA L", a->id)); } }
+   for (uint32 i = 0; i < nInit; i++) { Actor * a = AddActor(h, R(4) == 0); h.log.push_back(vh::fmt("a%d joins%s%s%s", a->id, a->reflect ? " (reflect-to-self)" : "", a->style ? " only-" : "", OPNAME_OF_STYLE[a->style])); if (R(4) != 0) { a->c->Send(CmdSet("L", false, false, 1)); h.log.push_back(vh::fmt("a%d SETDATA L", a->id)); } if (deep && (i == 0 || R(2))) { a->c->Send(CmdSet(g_deep[1], false, false, 1)); h.log.push_back(vh::fmt("a%d SETDATA ", a->id) + g_deep[1]); } }
    uint32 totalW = 0; for (int i = 0; i < NUM_OPS; i++) totalW += OPWEIGHT[i];
    std::set<int> kindsUsed; long spotChecks = 0;
 
@@ -512,6 +550,7 @@ static void RunHistory(long k, uint64_t seed, long nOps)
       if (a == NULL) { a = AddActor(h, R(4) == 0); h.log.push_back(vh::fmt("a%d joins (nobody was left)", a->id)); vh::stat("sessions_joined"); }
       uint32 r = R(totalW); int kind = 0; while (r >= OPWEIGHT[kind]) { r -= OPWEIGHT[kind]; kind++; }
       kind = Restrict(*a, kind);
+      if ((limited || deep) && kind == OP_INSERT && R(4) == 0) kind = OP_INSERT_CHECKED;   // the checked insert is what counts refused INSERTORDEREDDATA
       std::string what; bool counted = true;
       switch (kind) {
       case OP_ENSURE: case OP_INSERT: case OP_SETIDX: case OP_SETPLAIN: case OP_REORDER: case OP_REMOVE: {
@@ -530,7 +569,7 @@ static void RunHistory(long k, uint64_t seed, long nOps)
       } break;
       case OP_SUBSCRIBE: {
          Names taken = a->subs; for (std::map<int32, Names>::const_iterator ps = a->pendingSub.begin(); ps != a->pendingSub.end(); ++ps) taken.insert(taken.end(), ps->second.begin(), ps->second.end());
-         Names pats; for (int tries = 0; tries < 6 && pats.size() < (size_t)(1 + (R(6) == 0)); tries++) { std::string p = SUBPOOL[R(NSUBPOOL)]; if (std::find(taken.begin(), taken.end(), p) == taken.end() && std::find(pats.begin(), pats.end(), p) == pats.end()) pats.push_back(p); }
+         Names pats; for (int tries = 0; tries < 6 && pats.size() < (size_t)(1 + (R(6) == 0)); tries++) { std::string p = PickSub(); if (std::find(taken.begin(), taken.end(), p) == taken.end() && std::find(pats.begin(), pats.end(), p) == pats.end()) pats.push_back(p); }
          if (pats.empty()) { counted = false; break; }
          const bool viaBatch = R(6) == 0;
          { MessageRef pg = GetMessageFromPool(PR_COMMAND_PING); const int32 t = ++h.tag; (void)pg()->AddInt32("xtag", t); a->c->Send(pg); a->pendingSub[t] = pats; }
@@ -549,8 +588,10 @@ static void RunHistory(long k, uint64_t seed, long nOps)
          bench.Settle(); Process(h, *a);
          if (!a->pendingUnsub.empty()) Abort("no PONG behind REMOVEPARAMETERS");
       } break;
-      case OP_GETDATA: { const std::string p = SUBPOOL[R(NSUBPOOL)]; what = "GETDATA " + p; a->c->Send(CmdGetData(p)); } break;
-      case OP_JOIN: { if (NumLive(h) >= 5) { counted = false; break; } Actor * n = AddActor(h, R(4) == 0); what.clear(); h.log.push_back(vh::fmt("a%d joins%s%s%s", n->id, n->reflect ? " (reflect-to-self)" : "", n->style ? " only-" : "", OPNAME_OF_STYLE[n->style])); vh::stat("sessions_joined"); } break;
+      case OP_GETDATA: { const std::string p = PickSub(); what = "GETDATA " + p; a->c->Send(CmdGetData(p)); } break;
+      case OP_JOIN: { if (NumLive(h) >= 5) { counted = false; break; }
+         if (limited && R(3) == 0) { const uint32 m = R(10); SetLimits(h, m < 8 ? 3 + R(4) : MUSCLE_NO_LIMIT, (m >= 6) ? 6 + R(25) : MUSCLE_NO_LIMIT); }
+         Actor * n = AddActor(h, R(4) == 0); what.clear(); h.log.push_back(vh::fmt("a%d joins%s%s%s", n->id, n->reflect ? " (reflect-to-self)" : "", n->style ? " only-" : "", OPNAME_OF_STYLE[n->style])); vh::stat("sessions_joined"); } break;
       case OP_LEAVE: { if (NumLive(h) <= 1 && R(3) != 0) { counted = false; break; } Process(h, *a); a->c->Cut(); a->gone = true; h.log.push_back(vh::fmt("a%d leaves", a->id)); vh::stat("sessions_left"); if (!a->subs.empty()) vh::stat("subscribers_left"); } break;
       case OP_CLONE: case OP_SAVE: {
          // source: an L or M node (or one child of it), own (relative) or of another session (absolute)
@@ -617,9 +658,16 @@ static void RunHistory(long k, uint64_t seed, long nOps)
          if (h.tainted.count(path)) { vh::stat("known_defect_tainted_nodes_not_judged"); break; }
          const Names B = n1->second.index; const uint32 r = R(10);
          const std::string bef = (r < 6 && !B.empty()) ? B[R((uint32)B.size())] : (r < 8 && !n1->second.kids.empty()) ? *n1->second.kids.begin() : std::string("nosuchchild");
-         a->c->Send(CmdInsert(Names(1, ix), Names(1, bef))); h.log.push_back(vh::fmt("a%d checked INSERTORDERED %s before '%s'", a->id, ix.c_str(), bef.c_str()));
+         const IdxSession * is = static_cast<const IdxSession *>(a->c->session());
+         const bool nodeLimitHit = h.b->insp->NodeCountOf(*is) >= is->nodeLimit, refuse = nodeLimitHit || n1->second.depth >= MUSCLE_MAX_NODE_DEPTH || n1->second.kids.size() >= is->childLimit;
+         a->c->Send(CmdInsert(Names(1, ix), Names(1, bef))); h.log.push_back(vh::fmt("a%d checked INSERTORDERED %s before '%s'%s", a->id, ix.c_str(), bef.c_str(), refuse ? " (to be refused)" : ""));
          if (!Check(h, &t2, true)) break;
          const TNode & n2 = t2[path]; Names fresh; for (size_t i = 0; i < n2.index.size(); i++) if (!n1->second.kids.count(n2.index[i])) fresh.push_back(n2.index[i]);
+         if (refuse) {   // a refused insert leaves no trace
+            vh::stat(std::string("ordered_inserts_refused_") + RefusalKind(nodeLimitHit, n1->second.depth)); vh::stat("semantic_checks_refused_insert");
+            if (n2.index != B || n2.kids != n1->second.kids) Fail(h, "semantics|refused_insert_left_a_trace", "INSERTORDEREDDATA under " + path + vh::fmt(" (%zu children, depth %u, limits: %u children per node, %u nodes per session of which %u used) had to be refused: index before ", n1->second.kids.size(), n1->second.depth, is->childLimit, is->nodeLimit, h.b->insp->NodeCountOf(*is)) + Join(B) + ", after " + Join(n2.index));
+            break;
+         }
          spotChecks++; vh::stat("semantic_checks_insert"); if (std::find(B.begin(), B.end(), bef) != B.end()) vh::stat("semantic_checks_insert_before_existing_sibling");
          if (fresh.size() != 1) { Fail(h, "semantics|insert_creates_one_child_per_submessage", "INSERTORDEREDDATA with one sub-message under " + path + ": index before " + Join(B) + ", after " + Join(n2.index)); break; }
          if (n2.index != ExpectInsert(B, bef, fresh[0])) Fail(h, "semantics|insert_position", "INSERTORDEREDDATA under " + path + " with field name '" + bef + "': index before " + Join(B) + ", after " + Join(n2.index) + ", documented " + Join(ExpectInsert(B, bef, fresh[0])));
@@ -648,8 +696,8 @@ static void RunHistory(long k, uint64_t seed, long nOps)
    const bool nontrivial = h.cmpNonEmpty >= 1 && h.idxOps >= 10;
    vh::distinct(seed, nontrivial);
    if (nontrivial) vh::stat("histories_nontrivial");
-   if (vh::want_sample() && nontrivial) { std::string s = vh::fmt("case %ld: ", k); for (size_t i = 0; i < h.log.size() && i < 40; i++) { s += h.log[i]; s += " ; "; } vh::sample(s); }
-   h.vault.clear();
+   if (vh::want_sample() && nontrivial) { std::string s = vh::fmt("case %ld: ", k); for (size_t i = 0; i < h.log.size() && i < 40; i++) { s += h.log[i]; s += " ; "; } vh::sample(Shorten(s)); }
+   h.vault.clear(); g_deep.clear();
 }
 
 // ---- regress -------------------------------------------------------------------------------------------------------------------
